@@ -6,7 +6,7 @@ from facts import AnchorMissing
 LEVEL = "other"
 
 
-def run(ctx):
+def rule_W_ENUM(ctx):
     f = ctx.facts
     # ---- W-ENUM
     ctx.rule("W-ENUM", "typestate over the enum parser (MIR, interprocedural summaries): a token-start read -- starts_with(non-space "
@@ -46,8 +46,15 @@ def run(ctx):
         if not bad:
             ctx.ob("W-ENUM", "%s: every token-start read is preceded by a space skip" % nm, True)
 
+
+
+def run(ctx):
+    f = ctx.facts
+    rule_W_ENUM(ctx)
     import maps
     maps.rule_K_COPULAS(ctx)
+    # token borders are char counts: a byte length moves a border for non-ASCII keywords, so the same tokens split differently
+    maps.rule_U_CHARS(ctx)
     # ---- W-LEX
     ctx.rule("W-LEX", "every lexical entry that takes a &str idealises it first: the only char environment handed to parse/segment "
              "functions is the result of idealize_env(format, input); idealize_env filters out every char for which the format's "
